@@ -739,7 +739,12 @@ type UnaryArithmetic struct {
 }
 
 func (e UnaryArithmetic) String() string {
-	return e.Operator.String() + e.Operand.String()
+	operand := e.Operand.String()
+	if 0 < len(operand) && (operand[0] == '-' || operand[0] == '+') {
+		// "--" would begin a comment
+		return e.Operator.String() + " " + operand
+	}
+	return e.Operator.String() + operand
 }
 
 type Logic struct {
